@@ -1,4 +1,5 @@
 import FAVerif.Lemmas.FPTheory
+import FAVerif.Lemmas.Veltkamp
 import FAVerif.IR.EvalQ
 import FAVerif.Models.EFT
 
@@ -88,5 +89,148 @@ theorem fast2sum_fix_prog (hr : IsRN q r) (f : Fmt) {x y L : ℚ} (lb zb : Nat)
   congr 2
   · congr 1
     linarith
+
+end FAVerif.EFT
+
+namespace FAVerif.EFT
+open FAVerif.IR FAVerif.FPQ FAVerif.Spec FAVerif.FP
+
+variable {q : QFmt} {r : ℚ → ℚ}
+
+theorem evalQ_splitV (f : Fmt) (r : ℚ → ℚ) (x C : ℚ) (cb : Nat) (hC : (decode f cb).toRat? = some C) :
+    evalQ f r (splitV cb) splitVOuts [x] =
+      some [r (r (C * x) - r (r (C * x) - x)), r (x - r (r (C * x) - r (r (C * x) - x)))] := by
+  simp [evalQ, evalNodesQ, evalNodeQ, splitV, splitVOuts, hC]
+
+theorem evalQ_splitVU (f : Fmt) (r : ℚ → ℚ) (x C : ℚ) (cb : Nat) (hC : (decode f cb).toRat? = some C) :
+    evalQ f r (splitVU cb) splitVOuts [x] =
+      some [r (r (C * x) + r (x - r (C * x))), r (x - r (r (C * x) + r (x - r (C * x))))] := by
+  simp [evalQ, evalNodesQ, evalNodeQ, splitVU, splitVOuts, hC]
+
+/-- `fpa.split_veltkamp` as a program: for every normal x the outputs (xh, xl) satisfy xh + xl = x,
+xh has at most p − s significant bits, xl at most s − 1 bits and a sign. -/
+theorem splitV_prog (hr : IsRN q r) (f : Fmt) (cb : Nat) {s : ℕ} (hC : (decode f cb).toRat? = some (2 ^ s + 1))
+    (hs1 : 1 ≤ s) (hsp : s < q.p) {k e : ℤ} (hk1 : 2 ^ (q.p - 1) ≤ |k|) (hk2 : |k| < 2 ^ q.p) (he : q.emin ≤ e) :
+    ∃ xh xl : ℚ, evalQ f r (splitV cb) splitVOuts [(k : ℚ) * 2 ^ e] = some [xh, xl] ∧
+      xh + xl = (k : ℚ) * 2 ^ e ∧ Mult (e + s) xh ∧ |xh| ≤ 2 ^ q.p * 2 ^ e ∧ Mult e xl ∧ |xl| ≤ 2 ^ (e + s) / 2 := by
+  rw [evalQ_splitV f r _ _ cb hC]
+  exact ⟨_, _, rfl, veltkamp hr hs1 hsp hk1 hk2 he⟩
+
+theorem splitVU_prog (hr : IsRN q r) (f : Fmt) (cb : Nat) {s : ℕ} (hC : (decode f cb).toRat? = some (2 ^ s + 1))
+    (hs1 : 1 ≤ s) (hsp : s < q.p) {k e : ℤ} (hk1 : 2 ^ (q.p - 1) ≤ |k|) (hk2 : |k| < 2 ^ q.p) (he : q.emin ≤ e) :
+    ∃ xh xl : ℚ, evalQ f r (splitVU cb) splitVOuts [(k : ℚ) * 2 ^ e] = some [xh, xl] ∧
+      xh + xl = (k : ℚ) * 2 ^ e ∧ Mult (e + s) xh ∧ |xh| ≤ 2 ^ q.p * 2 ^ e ∧ Mult e xl ∧ |xl| ≤ 2 ^ (e + s) / 2 := by
+  rw [evalQ_splitVU f r _ _ cb hC]
+  exact ⟨_, _, rfl, veltkamp' hr hs1 hsp hk1 hk2 he⟩
+
+theorem evalQ_mulDekker (f : Fmt) (r : ℚ → ℚ) (x y C : ℚ) (cb : Nat) (hC : (decode f cb).toRat? = some C) :
+    evalQ f r (mulDekker cb) mulDekkerOuts [x, y] =
+      (let xh := r (r (C * x) - r (r (C * x) - x))
+       let xl := r (x - xh)
+       let yh := r (r (y * C) - r (r (y * C) - y))
+       let yl := r (y - yh)
+       let h := r (y * x)
+       let t1 := r (r (yh * xh) + -h)
+       let t2 := r (r (yl * xh) + t1)
+       let t3 := r (t2 + r (xl * yh))
+       some [h, r (r (xl * yl) + t3)]) := by
+  simp [evalQ, evalNodesQ, evalNodeQ, mulDekker, mulDekkerOuts, hC]
+
+theorem evalQ_mulDekkerU (f : Fmt) (r : ℚ → ℚ) (x y C : ℚ) (cb : Nat) (hC : (decode f cb).toRat? = some C) :
+    evalQ f r (mulDekkerU cb) mulDekkerOuts [x, y] =
+      (let yh := r (r (y * C) + r (y - r (y * C)))
+       let yl := r (y - yh)
+       let xh := r (r (C * x) + r (x - r (C * x)))
+       let xl := r (x - xh)
+       let h := r (y * x)
+       let t1 := r (r (yh * xh) + -h)
+       let t2 := r (r (yl * xh) + t1)
+       let t3 := r (r (yh * xl) + t2)
+       some [h, r (r (yl * xl) + t3)]) := by
+  simp [evalQ, evalNodesQ, evalNodeQ, mulDekkerU, mulDekkerOuts, hC]
+
+theorem evalQ_squareDekkerU (f : Fmt) (r : ℚ → ℚ) (x C : ℚ) (cb : Nat) (hC : (decode f cb).toRat? = some C) :
+    evalQ f r (squareDekkerU cb) squareDekkerUOuts [x] =
+      (let xh := r (r (C * x) + r (x - r (C * x)))
+       let xl := r (x - xh)
+       let h := r (x * x)
+       let t1 := r (r (xh * xh) + -h)
+       let t2 := r (r (xl * xh) + t1)
+       let t3 := r (r (xl * xh) + t2)
+       some [h, r (r (xl * xl) + t3)]) := by
+  simp [evalQ, evalNodesQ, evalNodeQ, squareDekkerU, squareDekkerUOuts, hC]
+
+/-- **Dekker's product as a program** (`fpa.mul_dekker`, scale=False): h = RN(x·y), h + l = x·y. -/
+theorem mulDekker_prog (hr : IsRN q r) (f : Fmt) (cb : Nat) {s : ℕ} (hC : (decode f cb).toRat? = some (2 ^ s + 1))
+    (h2s : q.p ≤ 2 * s) (h2s2 : 2 * s ≤ q.p + 2) (hs2 : s + 2 ≤ q.p)
+    {kx ky ex ey : ℤ} (hkx1 : 2 ^ (q.p - 1) ≤ |kx|) (hkx2 : |kx| < 2 ^ q.p) (hky1 : 2 ^ (q.p - 1) ≤ |ky|) (hky2 : |ky| < 2 ^ q.p)
+    (hex : q.emin ≤ ex) (hey : q.emin ≤ ey) (he : q.emin ≤ ex + ey) (x y : ℚ) (hx : x = (kx : ℚ) * 2 ^ ex) (hy : y = (ky : ℚ) * 2 ^ ey) :
+    evalQ f r (mulDekker cb) mulDekkerOuts [x, y] = some [r (x * y), x * y - r (x * y)] := by
+  rw [evalQ_mulDekker f r _ _ _ cb hC]
+  have hs1 : 1 ≤ s := by omega
+  have hsp : s < q.p := by omega
+  obtain ⟨a1, a2, a3, a4, a5⟩ := veltkamp hr hs1 hsp hkx1 hkx2 hex
+  obtain ⟨b1, b2, b3, b4, b5⟩ := veltkamp hr hs1 hsp hky1 hky2 hey
+  obtain ⟨fA, fB, fC, fD, fT1, fT2, -, fT3, fE, fS⟩ :=
+    dekker_core hr h2s h2s2 hs2 hkx1 hkx2 hky1 hky2 he a1 a2 a3 a4 a5 b1 b2 b3 b4 b5
+  simp only [← hx, ← hy] at fA fB fC fD fT1 fT2 fT3 fE fS
+  simp only
+  rw [mul_comm y (2 ^ s + 1), mul_comm y x]
+  generalize r (r ((2 ^ s + 1) * x) - r (r ((2 ^ s + 1) * x) - x)) = xh at *
+  generalize r (r ((2 ^ s + 1) * y) - r (r ((2 ^ s + 1) * y) - y)) = yh at *
+  generalize r (x - xh) = xl at *
+  generalize r (y - yh) = yl at *
+  generalize r (x * y) = h at *
+  rw [mul_comm yh xh, rn_id hr fA, ← sub_eq_add_neg, rn_id hr fT1, mul_comm yl xh, rn_id hr fB,
+    add_comm (xh * yl), rn_id hr fT2, rn_id hr fC, rn_id hr fT3, rn_id hr fD,
+    show xl * yl + (xh * yh - h + xh * yl + xl * yh) = x * y - h by rw [fS]; ring, rn_id hr fE]
+
+/-- `utils.multiply_dekker` (Veltkamp form of the splitter, the other order of accumulation). -/
+theorem mulDekkerU_prog (hr : IsRN q r) (f : Fmt) (cb : Nat) {s : ℕ} (hC : (decode f cb).toRat? = some (2 ^ s + 1))
+    (h2s : q.p ≤ 2 * s) (h2s2 : 2 * s ≤ q.p + 2) (hs2 : s + 2 ≤ q.p)
+    {kx ky ex ey : ℤ} (hkx1 : 2 ^ (q.p - 1) ≤ |kx|) (hkx2 : |kx| < 2 ^ q.p) (hky1 : 2 ^ (q.p - 1) ≤ |ky|) (hky2 : |ky| < 2 ^ q.p)
+    (hex : q.emin ≤ ex) (hey : q.emin ≤ ey) (he : q.emin ≤ ex + ey) (x y : ℚ) (hx : x = (kx : ℚ) * 2 ^ ex) (hy : y = (ky : ℚ) * 2 ^ ey) :
+    evalQ f r (mulDekkerU cb) mulDekkerOuts [x, y] = some [r (x * y), x * y - r (x * y)] := by
+  rw [evalQ_mulDekkerU f r _ _ _ cb hC]
+  have hs1 : 1 ≤ s := by omega
+  have hsp : s < q.p := by omega
+  obtain ⟨a1, a2, a3, a4, a5⟩ := veltkamp' hr hs1 hsp hkx1 hkx2 hex
+  obtain ⟨b1, b2, b3, b4, b5⟩ := veltkamp' hr hs1 hsp hky1 hky2 hey
+  obtain ⟨fA, fB, fC, fD, fT1, fT2, -, fT3, fE, fS⟩ :=
+    dekker_core hr h2s h2s2 hs2 hkx1 hkx2 hky1 hky2 he a1 a2 a3 a4 a5 b1 b2 b3 b4 b5
+  simp only [← hx, ← hy] at fA fB fC fD fT1 fT2 fT3 fE fS
+  simp only
+  rw [mul_comm y (2 ^ s + 1), mul_comm y x]
+  generalize r (r ((2 ^ s + 1) * x) + r (x - r ((2 ^ s + 1) * x))) = xh at *
+  generalize r (r ((2 ^ s + 1) * y) + r (y - r ((2 ^ s + 1) * y))) = yh at *
+  generalize r (x - xh) = xl at *
+  generalize r (y - yh) = yl at *
+  generalize r (x * y) = h at *
+  rw [mul_comm yh xh, rn_id hr fA, ← sub_eq_add_neg, rn_id hr fT1, mul_comm yl xh, rn_id hr fB,
+    add_comm (xh * yl), rn_id hr fT2, mul_comm yh xl, rn_id hr fC, add_comm (xl * yh), rn_id hr fT3,
+    mul_comm yl xl, rn_id hr fD,
+    show xl * yl + (xh * yh - h + xh * yl + xl * yh) = x * y - h by rw [fS]; ring, rn_id hr fE]
+
+/-- `utils.square_dekker`: h = RN(x²), h + l = x² exactly. -/
+theorem squareDekkerU_prog (hr : IsRN q r) (f : Fmt) (cb : Nat) {s : ℕ} (hC : (decode f cb).toRat? = some (2 ^ s + 1))
+    (h2s : q.p ≤ 2 * s) (h2s2 : 2 * s ≤ q.p + 2) (hs2 : s + 2 ≤ q.p)
+    {kx ex : ℤ} (hkx1 : 2 ^ (q.p - 1) ≤ |kx|) (hkx2 : |kx| < 2 ^ q.p)
+    (hex : q.emin ≤ ex) (he : q.emin ≤ ex + ex) (x : ℚ) (hx : x = (kx : ℚ) * 2 ^ ex) :
+    evalQ f r (squareDekkerU cb) squareDekkerUOuts [x] = some [r (x * x), x * x - r (x * x)] := by
+  rw [evalQ_squareDekkerU f r _ _ cb hC]
+  have hs1 : 1 ≤ s := by omega
+  have hsp : s < q.p := by omega
+  obtain ⟨a1, a2, a3, a4, a5⟩ := veltkamp' hr hs1 hsp hkx1 hkx2 hex
+  obtain ⟨fA, fB, fC, fD, fT1, fT2, -, fT3, fE, fS⟩ :=
+    dekker_core hr h2s h2s2 hs2 hkx1 hkx2 hkx1 hkx2 he a1 a2 a3 a4 a5 a1 a2 a3 a4 a5
+  simp only [← hx] at fA fB fC fD fT1 fT2 fT3 fE fS
+  simp only
+  generalize r (r ((2 ^ s + 1) * x) + r (x - r ((2 ^ s + 1) * x))) = xh at *
+  generalize r (x - xh) = xl at *
+  generalize r (x * x) = h at *
+  rw [mul_comm xl xh] at fT3 fS
+  rw [rn_id hr fA, ← sub_eq_add_neg, rn_id hr fT1, mul_comm xl xh, rn_id hr fB, add_comm (xh * xl) (xh * xh - h), rn_id hr fT2,
+    add_comm (xh * xl), rn_id hr fT3, rn_id hr fD,
+    show xl * xl + (xh * xh - h + xh * xl + xh * xl) = x * x - h by rw [fS]; ring, rn_id hr fE]
 
 end FAVerif.EFT
